@@ -33,12 +33,14 @@ CLAIMED = {
     "C04": dict(cat="exploration", tech="reference-model monitor (128-bit calendar oracle) + UBSan as the overflow detector; 146097-day cycle enumerated",
                 text="All six civil types are constructed from vetted tuples (exhaustive cycle bases x overlay panel, random int64 mixtures) "
                      "and compared field by field with a 128-bit normalisation written from the statement; UBSan makes any avoidable "
-                     "intermediate overflow fatal.", note="trusts O-CAL (self-tested by naive walk)", ref="3/C04"),
+                     "intermediate overflow fatal; every year in [-2^29, 2^29) (thorough +-2^32) is swept with eight constructions that carry "
+                     "across the end of February and the year boundary.", note="trusts O-CAL (self-tested by naive walk)", ref="3/C04"),
     "C05": dict(cat="exploration", tech="reference-model + algebraic-law monitor under UBSan",
                 text="Addition, subtraction, difference, increments and all relational operators are compared with unit-index arithmetic "
                      "in 128-bit, and the inverse laws are checked on the library's own results, for every alignment, including the "
-                     "int64 extremes.", note="trusts O-CAL", ref="3/C05"),
-    "C17": dict(cat="exploration", tech="reference-model monitor, exhaustive over the 146097-day cycle x 7 weekdays at 13 cycle offsets, plus a sweep of every year of the 32-bit range",
+                     "int64 extremes; every year in [-2^29, 2^29) (thorough +-2^32) is swept with twelve steps, differences and comparisons "
+                     "across the end of February and the year boundary.", note="trusts O-CAL", ref="3/C05"),
+    "C17": dict(cat="exploration", tech="reference-model monitor, exhaustive over the 146097-day cycle x 7 weekdays at 13 cycle offsets, plus a sweep of every year in [-2^30, 2^30) (thorough +-2^32)",
                 text="weekday/yearday/next/prev_weekday compared with day-count arithmetic for every day of the Gregorian cycle, "
                      "replicated across the int64 year range; every year in [-2^30, 2^30) (thorough: [-2^32, 2^32)) is asked six questions "
                      "around the end of February and of the year against an oracle advanced year by year.", note="trusts O-CAL", ref="3/C17"),
